@@ -71,6 +71,15 @@ where
     f64: LossyFrom<F>,
 {
     let mut rng = args.rng_for(lay, 5);
+    if args.get_u64("exhaustive", 0) == 1 && lay.n <= 16 {
+        // every value of the 8- and 16-bit layouts to both float types (with a generated float for the other direction)
+        for a in 0..(1u128 << lay.n) {
+            let f = gen_float_for(&mut rng, lay, 32, a);
+            f32_ev::<F>(ev, lay, a, f);
+            let f = gen_float_for(&mut rng, lay, 64, a);
+            f64_ev::<F>(ev, lay, a, f);
+        }
+    }
     for _ in 0..args.n {
         let a = gen_fixed_for_float(&mut rng, lay, 32);
         let f = gen_float_for(&mut rng, lay, 32, a);
